@@ -49,6 +49,7 @@ type c20Report struct {
 	LinUnknown    int            `json:"lin_unknown"`
 	LinChecked    int            `json:"lin_checked"`
 	WithFailures  int            `json:"histories_with_failing_subscribers"`
+	Doubles       int            `json:"subscription_requests_opening_two_streams"`
 	Violations    []c20Violation `json:"violations"`
 	Hits          map[string]int `json:"hook_hits"`
 	Signatures    int            `json:"distinct_interleaving_signatures"`
@@ -67,7 +68,7 @@ type c20Violation struct {
 
 var evIDRe = regexp.MustCompile(`"id":"e(\d+)"`)
 
-// registry model for porcupine: state is the ordered list of live subscribers "sid:topic".
+// registry model for porcupine: state is the set of live subscribers "sid:topic" (kept sorted).
 type c20In struct {
 	Kind  string
 	Topic string
@@ -92,7 +93,10 @@ func c20Model() porcupine.Model {
 			}
 			switch in.Kind {
 			case "subscribe":
+				// the outcomes the model predicts (counts, sets of receivers) do not depend on the registration order, so the
+				// state is kept as a sorted set: orders of the same subscribes collapse into one state for the checker
 				entries = append(entries, fmt.Sprintf("%d:%s", in.Sub, in.Topic))
+				sort.Strings(entries)
 				return true, strings.Join(entries, ",")
 			case "publish":
 				var ids []string
@@ -180,10 +184,12 @@ func c20Child(args []string) int {
 		scenario := h % 4 // 0 mixed, 1 failure-free (linearizability), 2 two publishers failing on one subscriber, 3 unsubscribe racing clean-up
 		var nextSub int32
 		var nextEvent int64
+		var doubles int64
 		type plan struct {
 			kind  string
 			topic string
 			fails []int
+			also  string // subscribe: when set the SAME request opens a second stream on this topic (second root field, through a fragment)
 		}
 		plans := make([][]plan, clients)
 		total := 0
@@ -199,6 +205,8 @@ func c20Child(args []string) int {
 					}
 					if scenario == 2 && ci == 0 && k == 0 {
 						p.topic, p.fails = "*", []int{0, 1, 2}
+					} else if r.Intn(5) == 0 {
+						p.also = topics[r.Intn(len(topics))]
 					}
 				case x < 8:
 					p.kind = "publish"
@@ -236,10 +244,27 @@ func c20Child(args []string) int {
 						ro.pending[key] = hs
 						ro.mu.Unlock()
 						text := `subscription { listen(topic: "` + key + `|` + p.topic + `") { id n inner { v } } }`
+						var op2 *c20Op
+						if p.also != "" {
+							// one request, two root fields, two subscribers: both are registered when the request has returned
+							sid2 := int(atomic.AddInt32(&nextSub, 1)) - 1
+							hs2 := &hSub{sid: sid2, log: lg, failOn: map[int]bool{}, topic: p.also}
+							key2 := fmt.Sprintf("k%d", sid2)
+							ro.mu.Lock()
+							ro.pending[key2] = hs2
+							ro.mu.Unlock()
+							op2 = &c20Op{Client: ci, Kind: "subscribe", Topic: p.also, Sub: sid2}
+							text = `subscription { s1: listen(topic: "` + key + `|` + p.topic + `") { id n inner { v } } ...Two } fragment Two on Subscription { s2: listen(topic: "` + key2 + `|` + p.also + `") { id n inner { v } } }`
+							atomic.AddInt64(&doubles, 1)
+						}
 						op.Call = atomic.AddInt64(&clock, 1)
 						res := root.ResolveString(text, "", nil)
 						op.Ret = atomic.AddInt64(&clock, 1)
 						_, op.Err = res["errors"]
+						if op2 != nil {
+							op2.Call, op2.Ret, op2.Err = op.Call, op.Ret, op.Err
+							ops[ci] = append(ops[ci], *op2)
+						}
 					case "publish":
 						uid := atomic.AddInt64(&nextEvent, 1)
 						op.Event = uid
@@ -260,6 +285,7 @@ func c20Child(args []string) int {
 		}
 		close(start)
 		wg.Wait()
+		rep.Doubles += int(atomic.LoadInt64(&doubles))
 		sigs[ys.signature()] = true
 		var all []c20Op
 		for _, l := range ops {
@@ -450,7 +476,8 @@ func c20Child(args []string) int {
 				pops = append(pops, porcupine.Operation{ClientId: o.Client, Input: in, Call: o.Call, Output: out, Return: o.Ret})
 			}
 			rep.LinChecked++
-			switch porcupine.CheckOperationsTimeout(lin, pops, 30*time.Second) {
+			atomic.AddInt64(&progress, 1) // the checker may think for a while: not a stall of the workload
+			switch porcupine.CheckOperationsTimeout(lin, pops, 15*time.Second) {
 			case porcupine.Ok:
 				rep.Linearizable++
 			case porcupine.Illegal:
@@ -587,6 +614,7 @@ func runC20(c *run.Ctx) {
 		tot.LinUnknown += r.LinUnknown
 		tot.LinChecked += r.LinChecked
 		tot.WithFailures += r.WithFailures
+		tot.Doubles += r.Doubles
 		tot.Signatures += r.Signatures
 		tot.Overlaps += r.Overlaps
 		tot.TwoFailers += r.TwoFailers
@@ -625,6 +653,7 @@ func runC20(c *run.Ctx) {
 	c.Set("histories_linearizable", tot.Linearizable)
 	c.Set("histories_porcupine_unknown", tot.LinUnknown)
 	c.Set("histories_with_failing_subscribers", tot.WithFailures)
+	c.Set("subscription_requests_opening_two_streams", tot.Doubles)
 	c.Set("subscribers_failed_on_by_two_or_more_deliveries", tot.TwoFailers)
 	c.Set("unsubscribes_overlapping_a_failing_publish", tot.UnsubDuringPh)
 	c.Set("hook_hits_per_site", hits)
